@@ -1195,6 +1195,8 @@ def main(tier, replay=None):
     ob = check_obligations('C20')
     proof_coverage(chk, ob, 'make -f Makefile.coq -k Props/Properties_C20.vo (coqc 8.16.1, full .vo) + Print Assumptions',
                    ['Coq 8.16.1 kernel incl. vm_compute', 'extraction (ExtrOcamlBasic only) + ocaml/C20/driver.ml (tokenising, hex, decimal through the model)',
+                    'harness/gen/escc.py (esc_tag and the byte classification of esc_shell_multi of support.c -> Gen/EscProgs.v on every run: ESCAPE macro and cases parsed, '
+                    'loop / guarded-store frame token-recognised; PATH_MAX = 4096 assumed; proved equal to Report/EscModel.v in Props/Properties_C20_escc.v)',
                     'harness/c/c20_drv.c', 'harness/py/c20_tree.py (tree walk = independent oracle, state encoding)',
                     'hand models: Report/EscModel.v (support.c esc_tag/esc_shell), Report/ViewModel.v (list.c, dup.c, status.c loops), Report/TermModel.v (list stdout)',
                     'hash functions enter the dup theorems as section variables with explicit collision-freedom hypotheses on the finite state',
@@ -1247,9 +1249,11 @@ def main(tier, replay=None):
                      'uniquely readable (spaces inside names are always escaped); only "one line = one entry" fails (C20_term_line_framing_refuted). '
                      'The real finding found instead (' + KEY_ZEROSUB + ', raw names in the zerosubsecond: lines of status -l) is repaired in the repo; '
                      'its witnesses run as regression cases from corpus/C20/zerosub_regression.json')
-    if ob['failed'] and not chk.violations:
-        chk.violation('obligation', 'proof obligation of C20 no longer checks: %s' % ob['failed'][0],
-                      {'theorem_file': 'coq/Props/Properties_C20.v', 'failed': ob['failed'], 'log_tail': ob['log'][-1500:]}, no_input=True)
+    if ob['failed']:
+        import obname
+        chk.violation('obligation', obname.obligation_text(ob, 'C20'),
+                      {'theorem_files': ['coq/Props/Properties_C20.v', 'coq/Props/Properties_C20_escc.v'], 'failed': ob['failed'], 'log_tail': ob['log'][-1500:]},
+                      no_input=not chk.violations)
     chk.assumptions += ['disk names contain no colon or newline (they are printed unescaped in every tag line)',
                         'list stdout model: default FMT_FILE mode, not verbose, localtime() succeeded; the date tokens are taken as printed',
                         'dup: collision freedom of the block hash and of the file-level hash on the finite state, no hash migration in progress (hypotheses of C20_dup_iff_equal_content)',
